@@ -323,7 +323,16 @@ func (c *Channel) newResp(m0 []byte, minTime tai64.TAI64N) (*Session, error) {
 // and checks to see if it should become the new prospective session, possibly
 // replacing an existing prospective session.
 func (c *Channel) proposeNewSession(sid [32]byte, newS *Session) (ret *Session) {
-	if s := c.sessions[2].Session; s != nil && bytes.Compare(c.sessions[2].ID[:], sid[:]) < 0 {
+	if s := c.sessions[2].Session; s != nil && !s.IsInit() && !newS.IsInit() {
+		// two handshakes opened by the peer: the later InitHello wins, whatever the
+		// ids (the earlier one may belong to a session the peer no longer has)
+		if !newS.InitHelloTime().After(s.InitHelloTime()) {
+			c.log.Debug("not replacing prospective session")
+			return s
+		}
+		c.log.Debug("replacing prospective session", zap.Any("old", s), zap.Any("new", newS))
+		ret = newS
+	} else if s != nil && bytes.Compare(c.sessions[2].ID[:], sid[:]) < 0 {
 		c.log.Debug("not replacing prospective session")
 		return s
 	} else if s != nil {
